@@ -1,6 +1,7 @@
 #!/bin/bash
 # mut.sh <name> <patchfile|-R:commit> <prop> [prop...]  -- run checks against a mutated scratch worktree of /repo
 name=$1; patch=$2; shift 2
+home=$(cd $(dirname $0) && pwd)
 dir=/tmp/verif-mut-$name
 git -C /repo worktree remove --force $dir 2>/dev/null
 git -C /repo worktree add -q --detach $dir HEAD || exit 2
@@ -10,7 +11,7 @@ else
   git -C $dir apply $patch || { echo "patch failed"; git -C /repo worktree remove --force $dir; exit 2; }
 fi
 for p in "$@"; do
-  out=$(cd /verif && VERIF_REPO=$dir VERIF_EVIDENCE_DIR=/tmp/verif-mut-evidence-$name VERIF_REPLAYS_DIR=/tmp/verif-mut-evidence-$name/replays ./check $p 2>/dev/null | grep -E "^(VIOLATION|OK|KNOWN)" | head -3)
+  out=$(cd $home && VERIF_REPO=$dir VERIF_EVIDENCE_DIR=/tmp/verif-mut-evidence-$name VERIF_REPLAYS_DIR=/tmp/verif-mut-evidence-$name/replays ./check $p 2>/dev/null | grep -E "^(VIOLATION|OK|KNOWN)" | head -3)
   echo "[$name] $p: ${out:-INCONCLUSIVE}"
 done
 git -C /repo worktree remove --force $dir
